@@ -37,13 +37,13 @@ Qed.
 
 Lemma user_value_nick h o v : user_value h o = Some v -> nick_of h o = vu_nick v.
 Proof.
-  unfold user_value, nick_of, get_user. destruct (hget h o) as [[| | |u|]|]; try discriminate.
+  unfold user_value, nick_of, get_user. destruct (hget h o) as [[| | |u| |pl]|]; try discriminate.
   destruct (sl_get h (hu_chans u)); [|discriminate]. destruct (hu_perms u); [destruct (get_perms h n); [|discriminate]|];
     intros H; injection H as <-; reflexivity.
 Qed.
 Lemma chan_value_name h o v : chan_value h o = Some v -> name_of h o = vc_name v.
 Proof.
-  unfold chan_value, name_of, get_chan. destruct (hget h o) as [[| | | |c]|]; try discriminate.
+  unfold chan_value, name_of, get_chan. destruct (hget h o) as [[| | | |c|pl]|]; try discriminate.
   destruct (sl_get h (hc_users c)); [|discriminate]. destruct (sl_get_modes h _); [|discriminate].
   intros H; injection H as <-; reflexivity.
 Qed.
